@@ -50,11 +50,11 @@ ESSENTIAL = {
     "C11_resume": ["resumed", "non-success-reply"],
     "C12_cut": ["tls", "logger", "sm", "websocket", "cut-in-tag", "cut-in-text", "cut-between-elements", "prior-history"],
     "C13_streammanager": ["server-down", "failing-attempts", "end-streamclose", "end-reset", "end-streamerror", "permanent-error", "stop-while-reconnecting", "short-keepalive", "starttls"],
-    "C14_sasl": ["no-common-mechanism", "list-changes-across-starttls", "reconnection-with-other-list", "reply-failure", "auth-write-fault"],
+    "C14_sasl": ["no-common-mechanism", "list-changes-across-starttls", "reconnection-with-other-list", "reply-failure", "auth-write-fault", "traffic-logger", "foreign-mechanisms-lookalike"],
     "C15_jid": ["must-reject", "must-accept", "domain-with-resource", "resource-with-slash-or-at"],
     "C16_component": ["id-or-secret-needs-escaping", "reply-stream-error", "reply-unexpected", "reconnection"],
     "C17_fifo": ["pop-after-empty-and-refill", "mixed-peek-pop", "push-of-held-entry", "caller-changes-own-entry"],
-    "C18_keepalive": ["ping-failure", "session-end", "end-to-end", "over-starttls", "slow-disconnected-handler", "over-websocket", "after-disconnect-in-flight", "ping-fails-after-reconnection"],
+    "C18_keepalive": ["ping-failure", "session-end", "end-to-end", "over-starttls", "slow-disconnected-handler", "over-websocket", "after-disconnect-in-flight", "ping-fails-after-reconnection", "post-connect-hook-fails-first"],
     "C19_backoff": ["overflowing-attempt", "reset", "jitter", "no-jitter"],
     "C20_address": ["ipv6", "explicit-port", "ws", "wss", "ws-unusual-host"],
 }
